@@ -1517,24 +1517,28 @@ Lemma lossy_query_refuted :
   mk_request_prefix wit_parses (mkCfg KTags 0 0 []) link [] = link.
 Proof. vm_compute. repeat split. Qed.
 
-(* ---------- the digest probe of FetchReference (known finding over-read-digest-probe) ---------- *)
+(* ---------- the digest probe of FetchReference ---------- *)
 
-(* it rejects exactly the bodies larger than the limit, never hands out a truncated body ... *)
-Lemma digest_probe_spec limit body :
-  (snd (digest_probe limit body) = true <-> (eff_limit limit < Z.of_nat (length body))%Z) /\
-  (snd (digest_probe limit body) = false -> fst (digest_probe limit body) = body) /\
-  (Z.of_nat (length (fst (digest_probe limit body))) <= eff_limit limit + 1)%Z.
+(* never more than the limit is read; with the Content-Length of the body (the callers require a
+   known one) exactly the bodies over the limit are refused and a body that is not refused is
+   read completely -- never truncated *)
+Lemma digest_probe_spec limit clen body :
+  (Z.of_nat (length (fst (digest_probe limit clen body))) <= eff_limit limit)%Z /\
+  (clen = Z.of_nat (length body) ->
+     (snd (digest_probe limit clen body) = true <-> (eff_limit limit < Z.of_nat (length body))%Z) /\
+     (snd (digest_probe limit clen body) = true -> fst (digest_probe limit clen body) = []) /\
+     (snd (digest_probe limit clen body) = false -> fst (digest_probe limit clen body) = body)).
 Proof.
-  pose proof (eff_limit_pos limit) as Hp. unfold digest_probe. cbn [fst snd].
-  set (n := Z.to_nat (eff_limit limit + 1)).
-  assert (L : length (firstn n body) = Nat.min n (length body)) by apply firstn_length.
-  split; [|split].
-  - rewrite Z.ltb_lt. unfold n in *. lia.
-  - intro H. apply Z.ltb_ge in H. apply firstn_all2. unfold n in *. lia.
-  - unfold n in *. lia.
+  pose proof (eff_limit_pos limit) as Hp. unfold digest_probe.
+  destruct (eff_limit limit <? clen)%Z eqn:E; cbn [fst snd].
+  - apply Z.ltb_lt in E. split; [simpl; lia|]. intros ->. repeat split; auto; discriminate.
+  - apply Z.ltb_ge in E. split.
+    + pose proof (firstn_le_length (Z.to_nat (eff_limit limit)) body). lia.
+    + intros ->. split; [split; [discriminate|lia]|]. split; [discriminate|].
+      intros _. apply firstn_all2. lia.
 Qed.
 
-(* ... but of a larger body it reads one byte more than MaxMetadataBytes *)
-Lemma digest_probe_refuted :
-  exists limit body, (eff_limit limit < Z.of_nat (length (fst (digest_probe limit body))))%Z.
+(* the first version of the fix read one byte more than MaxMetadataBytes of a larger body *)
+Lemma digest_probe_v1_refuted :
+  exists limit body, (eff_limit limit < Z.of_nat (length (fst (digest_probe_v1 limit body))))%Z.
 Proof. exists 3%Z, (b "abcdef"). vm_compute. reflexivity. Qed.
